@@ -210,6 +210,10 @@ def narrow_features(comp, extra=()):
                 _dct_feats(d.dct, f)
                 if d.compu.tag != "identical":
                     f.add("compu:" + d.compu.tag)
+            if isinstance(d, D.SimpleDop) and d.precision is not None:
+                f.add("precision")
+            if isinstance(d, D.SimpleDop) and d.radix is not None:
+                f.add("display-radix")
         if p.dct is not None:
             _dct_feats(p.dct, f)
 
